@@ -2,6 +2,8 @@ import PfModel.DriverLib
 import PfModel.Model.Hashable
 import PfModel.Model.HashableKeys
 import PfModel.Model.HashableSort
+import PfModel.Model.HashablePandas
+import PfModel.Model.HashableCalls
 /-! Driver for C15 (`keys`, `memo`; the keys around `to_hashable`: `memokeys`, `pipekeys`, `mapkeys`, `bind`, `pcache`). Run: `lake env lean --run Driver/C15.lean < requests.jsonl`. -/
 open Lean PF.Drv PF.Hashable
 
@@ -155,6 +157,26 @@ def bindOf (j : Json) : R Json := do
     | some l => jObj [("bound", jList (fun (p : PF.Hashable.Name × PV) => jArr [jList jNat p.1, putPV p.2]) l)]
     | none => jObj [("rejected", jBool true)]
 
+/-- `{"cls": n, "name": v, "rows": [[label, value], …]}` (rows in row order) -/
+def seriesKeyOf (j : Json) : R Json := do
+  let rows ← asList (asPair getAtom (getPV 64)) (← fld j "rows")
+  return putExc (seriesKey true (← natF j "cls") (← getPV 64 (← fld j "name")) rows)
+
+/-- `{"cls": n, "index": [label, …], "cols": [[label, [value, …]], …]}` (columns in column order) -/
+def frameKeyOf (j : Json) : R Json := do
+  let cols ← asList (asPair getAtom (asList (getPV 64))) (← fld j "cols")
+  return putExc (frameKey true (← natF j "cls") (← listF getAtom j "index") cols)
+
+/-- `{"params": […], "vp": bool, "vk": bool, "args": […], "kwargs": [[name, v], …]}` -/
+def bindSigOf (j : Json) : R Json := do
+  let ps ← listF getParam j "params"
+  let args ← (← asArr (← fld j "args")).mapM (getPV 64)
+  let kw ← getKw (← fld j "kwargs")
+  let putKw := jList (fun (p : PF.Hashable.Name × PV) => jArr [jList jNat p.1, putPV p.2])
+  return match bindSig (← asBool (← fld j "vp")) (← asBool (← fld j "vk")) ps args kw with
+    | some b => jObj [("bound", putKw b.params), ("star", jList putPV b.star), ("kw", putKw b.kw)]
+    | none => jObj [("rejected", jBool true)]
+
 def getPCall (j : Json) : R (PV × List PF.Hashable.Name × List (PF.Hashable.Name × PV)) := do
   return (← getPV 64 (← fld j "out"), ← listF (asList asNat) j "roots", ← getKw (← fld j "kwargs"))
 
@@ -183,6 +205,9 @@ def handle (m : String) (a : Json) : R Json := do
     return jList (fun ps => match sortW ps with
       | .ok s => jObj [("sorted", jList (fun (p : PV × PV) => jArr [putPV p.1, putPV p.2]) s)]
       | .error e => putErr e) ls
+  | "bindsig" => return Json.arr (← (← asArr (← fld a "calls")).mapM bindSigOf).toArray
+  | "serieskeys" => return Json.arr (← (← asArr (← fld a "calls")).mapM seriesKeyOf).toArray
+  | "framekeys" => return Json.arr (← (← asArr (← fld a "calls")).mapM frameKeyOf).toArray
   | "pcache" => return jArr (pcacheRun {} (← (← asArr (← fld a "calls")).mapM getPCall))
   | _ => .error s!"unknown entry {m}"
 
